@@ -88,7 +88,7 @@ class VasicekRate(BasePrimary):
 
         spot = generate_vasicek(
             n_paths=n_paths,
-            n_steps=ceil(time_horizon / self.dt + 1),
+            n_steps=ceil(round(time_horizon / self.dt, 10) + 1),
             init_state=init_state,
             kappa=self.kappa,
             theta=self.theta,
